@@ -43,6 +43,23 @@ def deep_name_probe():
                 fails.append(f"a name of {len(name)} parts (sharing a prefix of about {depth} parts with visible names) is "
                              f"{'accepted' if got else 'refused'}; the conflict rule says {'accept' if ok else 'refuse'}")
                 break
+    # a named window as wide as its parent (it can only sit at address 0): its name is part of the reported paths like any
+    # other window name, at every level
+    for levels in (1, 2, 3):
+        stats["decisions"] += 1
+        leaf = MemoryMap(addr_width=6, data_width=8)
+        res = wiring.Component({})
+        leaf.add_resource(res, name="ctrl", size=1)
+        cur, want = leaf, (("ctrl",),)
+        for k in range(levels):
+            parent = MemoryMap(addr_width=6, data_width=8)
+            parent.add_window(cur, name=f"w{k}")
+            cur, want = parent, ((f"w{k}",),) + want
+        got = [tuple(tuple(p_) for p_ in i.path) for i in cur.all_resources()]
+        found = tuple(tuple(p_) for p_ in cur.find_resource(res).path)
+        if got != [want] or found != want:
+            fails.append(f"a resource behind {levels} named window(s) as wide as their parents is reported with path {got} / {found}, expected {want}")
+            break
     return {"fails": fails, "stats": stats}
 
 
